@@ -12,6 +12,7 @@ import (
 	"path/filepath"
 	"sort"
 	"strings"
+	"sync"
 )
 
 type Ctx struct {
@@ -29,6 +30,7 @@ type Ctx struct {
 	Dist     map[string]int
 	Failures []Failure
 	Extra    map[string]any
+	mu       sync.Mutex
 }
 
 // Failure: the implementation's own output violates the property oracle.
@@ -49,6 +51,8 @@ func New(prop, corr string, seed int64, n int, tier, out string) *Ctx {
 // Case records one correspondence case. coq is the Coq term of type `case`.
 // key identifies the input (for distinct counting); nontrivial per the runner's rule.
 func (c *Ctx) Case(kind, coq, key string, nontrivial bool, sample any) {
+	c.mu.Lock()
+	defer c.mu.Unlock()
 	c.cases = append(c.cases, coq)
 	c.Dist[kind]++
 	h := sha256.Sum256([]byte(kind + "|" + key))
@@ -62,9 +66,11 @@ func (c *Ctx) Case(kind, coq, key string, nontrivial bool, sample any) {
 	}
 }
 
-func (c *Ctx) Count(k string) { c.Dist[k]++ }
+func (c *Ctx) Count(k string) { c.mu.Lock(); c.Dist[k]++; c.mu.Unlock() }
 
 func (c *Ctx) Fail(key, what string, input, got, want any) {
+	c.mu.Lock()
+	defer c.mu.Unlock()
 	c.Failures = append(c.Failures, Failure{key, what, input, got, want})
 }
 
